@@ -116,6 +116,10 @@ def struct_unpack(I, args, kwargs):
             out.append(sb_slice(b, off, off + w))
         else:
             cells = [z3.simplify(z3.Select(b.arr, off + i)) for i in range(w)]
+            if all(z3.is_int_value(c) for c in cells):
+                out.append(int.from_bytes(bytes(c.as_long() for c in cells), "big"))
+                off += w
+                continue
             val = dec_fn(w)(*cells)
             for i, c in enumerate(cells):
                 I.path.fact(z3.And(c >= 0, c < 256), "bytes are in 0..255")
